@@ -38,7 +38,9 @@ OFF = {"absent": None, "zero": 0, "pos": 7}
 SETTERS = ["limit_offset", "offset_limit", "slice", "getitem"]
 MSSQL_SETTERS = ["fetch_next_offset", "offset_fetch_next", "top", "top_limit"]
 POSITIONS = ["top", "from-subquery", "in-subquery", "set-operand", "set-operation", "join-subquery", "cte", "insert-select-self", "select-into-self"]
-SURROUND = ["plain", "where", "groupby", "join", "nested-order-in", "window-order", "cte-ordered", "distinct", "for-update", "for-update-skip-locked"]
+SURROUND = ["plain", "where", "groupby", "join", "nested-order-in", "window-order", "cte-ordered", "distinct", "for-update", "for-update-skip-locked",
+            # what happens to the paginated statement afterwards / what the first operand of a set operation carries itself
+            "then-replace-table-unrelated", "then-replace-table-own", "first-operand-limited", "first-operand-offset"]
 
 
 def cases(tier, seed, shard, nshards):
@@ -407,6 +409,12 @@ def run_case(case, mon):
         # ordered instead (inside its brackets), which must not count as an ordering of the set operation
         operand_ordered = case["order"] and case["sur"] == "groupby" and DIALECT_OF[d] not in ("mysql", "sqlite")
         base = base_query(d, operand_ordered, case["sur"], reg, t)
+        if case["sur"] in ("first-operand-limited", "first-operand-offset"):
+            if DIALECT_OF[d] in ("mysql", "sqlite"):
+                return  # (these dialects do not bracket operands: an operand cannot carry a row limit of its own)
+            # the first operand is cut itself (inside its brackets): the set operation's own clause takes nothing from it
+            base = base.orderby(t.id)
+            base = base.limit(5) if case["sur"] == "first-operand-limited" else base.offset(4)
         so0 = base.union(reg[d].from_(t).select(t.b).where(t.b < 999))
         if case["order"] and not operand_ordered:
             so0 = so0.orderby(t.id)
@@ -428,6 +436,14 @@ def run_case(case, mon):
             target = embed(pos, d, q, reg, t)
         except Exception as e:
             mon.violation("%s:%s:raises:%s" % (DIALECT_OF[d], pos, type(e).__name__), "embedding raised %r" % e)
+            return
+    if case["sur"].startswith("then-replace-table"):
+        # a rewriting call afterwards (naming tables the statement does not use / its own table, replaced by itself) changes nothing
+        a_, b_ = (reg["Table"]("zz_unrelated"), reg["Table"]("yy_unrelated")) if case["sur"].endswith("unrelated") else (t, t)
+        try:
+            plain, target = plain.replace_table(a_, b_), target.replace_table(a_, b_)
+        except Exception as e:
+            mon.violation("%s:%s:raises:%s" % (DIALECT_OF[d], pos, type(e).__name__), "replace_table after pagination raised %r" % e)
             return
     try:
         sql0, vals0 = render(plain, d, mode)
